@@ -122,7 +122,11 @@ func runNodeCase(cs *hx.Case, fs *hx.FindingSet, cfg genCfg, after func(nm *hx.N
 	}
 	n := rapid.IntRange(minSteps, cfg.MaxSteps).Draw(rt, "steps")
 	for i := 0; i < n; i++ {
-		exec(genNodeOp(rt, nm, cfg))
+		if cfg.Mix != nil {
+			exec(cfg.Mix(rt, nm))
+		} else {
+			exec(genNodeOp(rt, nm, cfg))
+		}
 	}
 	for k, v := range nm.Stat {
 		if v > 0 {
